@@ -52,6 +52,7 @@ func checkC18(c *Check, a *Anchors) {
 	writerSerialised(c, a)
 	c08CopyExhaustive(c, a) // a "copy" that keeps a mutable reference of the definition is state shared by every concurrent run of the task
 	sharedWait(c, a)        // the recorded outcome is written before the completion signal (happens-before for the waiters' read)
+	copyReturnsFresh(c, a, "copy-returns-fresh")
 }
 
 func c18FieldsClassified(c *Check, a *Anchors) {
